@@ -15,6 +15,10 @@ CORE_WRAPS = ['syscall', 'epoll_create', 'epoll_ctl', 'epoll_wait', 'epoll_pwait
               'pthread_atfork', 'pthread_spin_init', 'pthread_mutex_init', 'malloc', 'calloc', 'free', 'strdup', 'pthread_once']
 
 
+import re
+_LINE_OK = re.compile(rb'^\{"t":\d+,"e":"[A-Za-z]+"[,}]')
+
+
 def build_core(kind="plain"):
     return vlib.build_harness('ivh_core', ['simk.c', 'simk_sig.c', 'memrec.c', 'ivh_core.c', 'ivh_priv.c'], kind, wraps=CORE_WRAPS)
 
@@ -47,6 +51,40 @@ def run_scripts(exe, scripts, scratch, tag="core", nproc=None, per_file=None):
                            stderr=subprocess.STDOUT, text=True, env=env, timeout=3600)
         if r.returncode != 0:
             raise vlib.MachineryError("harness failed on %s: rc=%d\n%s" % (sp, r.returncode, r.stdout[-2000:]))
+        # a process that dies outside the scheduler's control (e.g. glibc aborting in a thread's exit path)
+        # can leave a torn line behind: such lines carry no event and are dropped
+        torn = False
+        with open(tp, "rb") as f:
+            for ln in f:
+                if not (_LINE_OK.match(ln) and ln.endswith(b'}\n') and ln.count(b'{"t":') == 1 and b'\x00' not in ln):
+                    torn = True
+                    break
+        if torn:
+            import json
+            keep = []
+            open_exec = False
+            lost = b'{"t":0,"e":"End","why":"crash","sig":0,"now":[0,0]}\n'   # its End record was torn
+            with open(tp, "rb") as f:
+                for ln in f:
+                    try:
+                        e = json.loads(ln)
+                    except ValueError:
+                        continue
+                    if not isinstance(e, dict) or "e" not in e:
+                        continue
+                    if e["e"] == "Reset":
+                        if open_exec:
+                            keep.append(lost)
+                        open_exec = True
+                    elif not open_exec:
+                        continue
+                    elif e["e"] == "End":
+                        open_exec = False
+                    keep.append(ln if ln.endswith(b"\n") else ln + b"\n")
+            if open_exec:
+                keep.append(lost)
+            with open(tp, "wb") as f:
+                f.writelines(keep)
         return tp
     return vlib.parallel(one, jobs, nproc)
 
